@@ -45,50 +45,88 @@ Print Assumptions C11_head_switch_is_one_write.
 
 (* ---- imports ---------------------------------------------------------------------------------- *)
 
+(* the open finding fixes/C11_side_chain_skips_tx_root_check.md is about blocks of body
+   class 5: the header commits to a wrong transaction root, everything else is consistent *)
+Definition no_tx_root_only (t : tree) : Prop := forall h b, info t h = Some b -> bbv b <> 5.
+
 (* After ANY history over any tree: the number->hash index from the genesis to the
    head is a parent-linked chain of stored blocks ending in the head, the head's
    state is on disk, every lookup entry points to a canonical block at or below the
-   head that contains the transaction, no block that fails the signature,
-   consensus-field, body or state check is anywhere in the index; and the running
-   node's head is the database's head marker (if no import panicked). *)
-Theorem C11_import_consistent :
+   head that contains the transaction; and the running node's head is the
+   database's head marker (if no import panicked). *)
+Theorem C11_import_chain_consistent :
   forall t g fuel hist, wf t g ->
     let s := run t fuel (init_st g) hist in
-    consistent_b t (disk_of s) (d_headB (disk_of s)) = true /\
+    chain_consistent_b t (disk_of s) (d_headB (disk_of s)) = true /\
     (budget s = None -> cur s = d_headB (disk_of s)).
-Proof. intros t g fuel hist [A [B [C D]]]. exact (import_consistent t g A B D fuel hist). Qed.
-Print Assumptions C11_import_consistent.
+Proof. intros t g fuel hist [A [B [C D]]]. exact (import_chain_consistent t g A B D fuel hist). Qed.
+Print Assumptions C11_import_chain_consistent.
+
+(* ONLY VALID BLOCKS ARE CANONICAL - over all histories and at every crash point of
+   every import: every entry of the number index (stale ones above the head
+   included) is a block with a good signature, a good consensus field, a body that
+   matches the header and executes to the header's state/receipt/bloom/gas.  Block
+   validity is checked on every dispatch path of the model (plain, known,
+   ErrExistCanonical at index 0 -> side chain -> handed back, ErrExistCanonical with
+   i > 0, pruned ancestor, future).  Holds outside the open finding class: no block
+   of the tree is of body class 5. *)
+Theorem C11_only_valid_blocks_canonical_holds_outside :
+  forall t g fuel hist batch k, wf t g -> no_tx_root_only t ->
+    let s0 := run t fuel (init_st g) hist in
+    canon_good t (disk_of s0) = true /\
+    (budget s0 = None -> canon_good t (disk_of (crash_run t fuel s0 batch k)) = true).
+Proof.
+  intros t g fuel hist batch k [A [B [C D]]] H5 s0. split.
+  - exact (import_canon_good t g A B D H5 fuel hist).
+  - exact (crash_canon_good t g A B D H5 fuel hist batch k).
+Qed.
+Print Assumptions C11_only_valid_blocks_canonical_holds_outside.
+
+(* inside the class the statement is false of the code as it is: X1 (id 4) has the
+   content and state root of canonical Y1 (id 2) but commits to a wrong transaction
+   root; [4;5] is stored by the side-chain path (verifyAllSideChainBlocks does not
+   compare the transaction root), 6 imports directly on 5 and reorg makes 4 canonical.
+   The same input runs against /repo from corpus/C11/w6_tx_root_only_via_sidechain.json *)
+Definition w6_tree : tree :=
+  [mkB 1 0 0 1 [] 0 0; mkB 2 1 1 2 [1] 0 0; mkB 3 2 2 3 [2] 0 0;
+   mkB 4 1 1 2 [1] 0 5; mkB 5 4 2 2 [] 0 0; mkB 6 5 3 2 [] 0 0].
+Theorem C11_only_valid_blocks_canonical_refuted :
+  ~ (forall t g fuel hist, wf t g -> canon_good t (disk_of (run t fuel (init_st g) hist)) = true).
+Proof.
+  intros H. specialize (H w6_tree (mkB 1 0 0 1 [] 0 0) 6%nat [[2;3];[4;5];[6]]).
+  assert (Hwf : wf w6_tree (mkB 1 0 0 1 [] 0 0)) by (repeat split; reflexivity).
+  specialize (H Hwf). vm_compute in H. discriminate.
+Qed.
+Print Assumptions C11_only_valid_blocks_canonical_refuted.
 
 (* ---- crashes ------------------------------------------------------------------------------------- *)
 
 (* Whatever database write of whatever import the process dies after: the restart
    succeeds, its head is the database's head marker, and the restarted node is
-   consistent (all four clauses). *)
+   consistent (clauses 1-3; clause 4 is C11_only_valid_blocks_canonical_holds_outside). *)
 Theorem C11_crash_consistent :
   forall t g fuel hist batch k, wf t g ->
     let s0 := run t fuel (init_st g) hist in
     let sk := crash_run t fuel s0 batch k in
     budget s0 = None ->
     exists d, recover t (disk_of sk) = Some (d, d_headB (disk_of sk)) /\
-              consistent_b t d (d_headB (disk_of sk)) = true.
-Proof.
-  intros t g fuel hist batch k [A [B [C D]]] s0 sk Hb.
-  destruct (crash_consistent t g A B C D fuel hist batch k Hb) as [d [R [Q _]]]. exists d. exact (conj R Q).
-Qed.
+              chain_consistent_b t d (d_headB (disk_of sk)) = true.
+Proof. intros t g fuel hist batch k [A [B [C D]]]. exact (crash_chain_consistent t g A B C D fuel hist batch k). Qed.
 Print Assumptions C11_crash_consistent.
 
 (* The restarted node is a node in good standing: whatever is offered to it
    afterwards (the interrupted batch, further blocks, other forks, in any order),
-   it stays consistent and its head follows the database. *)
+   it stays consistent (all four clauses, outside the open finding class) and its
+   head follows the database. *)
 Theorem C11_restarted_node_stays_consistent :
-  forall t g fuel hist batch k hist2, wf t g ->
+  forall t g fuel hist batch k hist2, wf t g -> no_tx_root_only t ->
     let s0 := run t fuel (init_st g) hist in
     let sk := crash_run t fuel s0 batch k in
     budget s0 = None ->
     exists d, recover t (disk_of sk) = Some (d, d_headB (disk_of sk)) /\
       let s := run t fuel (fresh d (d_headB (disk_of sk))) hist2 in
       consistent_b t (disk_of s) (d_headB (disk_of s)) = true /\ (budget s = None -> cur s = d_headB (disk_of s)).
-Proof. intros t g fuel hist batch k hist2 [A [B [C D]]]. exact (restarted_run_consistent t g A B C D fuel hist batch k hist2). Qed.
+Proof. intros t g fuel hist batch k hist2 [A [B [C D]]] H5. exact (restarted_run_consistent t g A B C D H5 fuel hist batch k hist2). Qed.
 Print Assumptions C11_restarted_node_stays_consistent.
 
 (* ---- not wedged ------------------------------------------------------------------------------------ *)
